@@ -4,14 +4,14 @@ import etf, termgen, bytesgen
 
 ID = "C02"
 GEN_FILES = ["DecoderArms.v", "Tags.v", "Limits.v"]
-RULE = ("byte strings fed to every decoding entry point (decode, decode_borrowed, decode_with_trailing, decode_with_atom_cache, "
-        "decode_fragment_header) on a 2 MiB stack under a counting allocator: every tag x boundary values of its count field with 0..k bytes "
+RULE = ("byte strings fed to every decoding entry point (decode, decode_borrowed, decode_with_trailing, decode_raw_term, decode_with_cache, "
+        "decode_with_atom_cache, decode_fragment_header, decode_fragment_cont) on a 2 MiB stack under a counting allocator: every tag x boundary values of its count field with 0..k bytes "
         "behind it, nesting chains through every container tag at depths 10..200000, truncation at every offset of valid encodings, bit "
         "flips/splices, compressed sections that inflate to less/equal/more than declared, random bytes; distinct = distinct (entry point, bytes); "
         "non-trivial = longer than 3 bytes")
 ASSUMPTIONS = ["stack: 2 MiB thread (tokio worker default); memory: largest single request <= 128*(input+inflated)+64KiB and total requested <= 2000*(input+inflated)+1MiB",
                "process-level effects (abort, SIGSEGV) are observed by the harness in a child process, not derived in Coq"]
-OPS2 = ["dec2", "decb2", "dect2", "deca2", "decf2"]
+OPS2 = ["dec2", "decb2", "dect2", "deca2", "decf2", "decr2", "decc2", "decg2"]
 
 
 def inflated_of(case):
